@@ -14,6 +14,7 @@ readers of `Drv.Http`.
 {"m":"carrier","style":{"sp":b,"ascii":b},
  "conv":[{"notifs":[M…],"reply":M}…],
    M = {"k":"notif","method":[cp…],"params":T|null} | {"k":"resp","id":I,"result":T} | {"k":"err","id":I,"error":T}
+     | {"k":"text","t":[cp…]}        the very text the scripted server wrote (any JSON style)
    I = {"s":[cp…]} | {"i":n}          T = transport form of Drv.Json
  "stdio":{"crlf":[b…],"cuts":[n…]},
  "json":[{"id":I|null,"status":n,"sess":str|null,"batch":b}…] | null,
@@ -44,8 +45,7 @@ def getObj (what : String) (v : J) : Except String Rpc.Obj :=
   | .obj kvs => pure kvs
   | _ => throw s!"{what}: not an object"
 
-def getMsg (j : Json) : Except String Rpc.Msg := do
-  let k ← j.getObjValAs? String "k"
+def getRpc (j : Json) (k : String) : Except String Rpc.Msg := do
   match k with
   | "notif" =>
     let m ← Verif.Drv.Json.cpsToChars (← j.getObjVal? "method")
@@ -58,7 +58,39 @@ def getMsg (j : Json) : Except String Rpc.Msg := do
     return .error (some (← getId (← j.getObjVal? "id"))) (← getObj "error" (← Verif.Drv.Json.toModel (← j.getObjVal? "error")))
   | _ => throw s!"unknown message kind {k}"
 
-def getExchange (j : Json) : Except String (Exchange Rpc.Msg) := do
+/-- a message of the conversation: built with the library's constructors and encoded by the
+model's encoder (`rpcWire`), or given as the text the scripted server really wrote -/
+abbrev Src := Rpc.Msg ⊕ Str
+
+def textView (t : Str) : Rpc.View :=
+  match Json.dec t with
+  | some j => (parsedOpt (Rpc.parseMsg j)).getD emptyView
+  | none => emptyView
+
+def srcWire (st : Json.Style) : Wire Src Rpc.View where
+  enc
+    | .inl m => (rpcWire st).enc m
+    | .inr t => t
+  obs
+    | .inl m => Rpc.view m
+    | .inr t => textView t
+  kind
+    | .inl m => (rpcWire st).kind m
+    | .inr t => httpKind (textView t)
+  id
+    | .inl m => (rpcWire st).id m
+    | .inr t => (textView t).id.map httpId
+  key
+    | .inl m => (rpcWire st).key m
+    | .inr t => (realSse t).bind (·.key)
+
+def getMsg (j : Json) : Except String Src := do
+  let k ← j.getObjValAs? String "k"
+  if k == "text" then
+    return .inr (← Verif.Drv.Json.cpsToChars (← j.getObjVal? "t"))
+  .inl <$> getRpc j k
+
+def getExchange (j : Json) : Except String (Exchange Src) := do
   let ns ← (← j.getObjValAs? (Array Json) "notifs").toList.mapM getMsg
   return { notifs := ns, reply := ← getMsg (← j.getObjVal? "reply") }
 
@@ -123,7 +155,7 @@ def getPre (j : Json) : Except String (SseReq.Ev × Bool) := do
 def handle (j : Json) : Except String Json := do
   let stj ← j.getObjVal? "style"
   let st : Json.Style := ⟨← stj.getObjValAs? Bool "sp", ← stj.getObjValAs? Bool "ascii"⟩
-  let W := rpcWire st
+  let W := srcWire st
   let conv ← (← j.getObjValAs? (Array Json) "conv").toList.mapM getExchange
   -- stdio
   let sj ← j.getObjVal? "stdio"
